@@ -126,6 +126,10 @@ class RoleFinder:
         if isinstance(e, ast.Constant):
             return f'LIT:{e.value!r}'
         if isinstance(e, ast.Name):
+            # one of several names unpacked from an attribute of the object (`g, h, bh = self._memory`)
+            for a_ in walk_no_nested(f.node):
+                if isinstance(a_, ast.Assign) and isinstance(a_.targets[0], ast.Tuple) and any(isinstance(x, ast.Name) and x.id == e.id for x in a_.targets[0].elts) and isinstance(a_.value, ast.Attribute) and depth < 4:
+                    return self._role1(a_.value, f, depth + 1)
             if e.id in f.params():
                 return f'PARAM:{e.id}'
             p = f.parent
@@ -190,6 +194,8 @@ class RoleFinder:
                 while owner.cls is None and owner.parent is not None:
                     owner = owner.parent
                 vals = self.attr_values(owner.cls, e.attr)
+                if any(isinstance(x, ast.Call) and dotted(x.func) in ('np.empty', 'np.zeros', 'numpy.empty', 'numpy.zeros') for _g, v in vals for x in ast.walk(v)):
+                    return 'BUFFER_KEPT_ON_THE_OBJECT'  # allocated once and reused: what was returned by an earlier call is overwritten by the next one
                 rs = {self.role(v, g, depth + 1) for g, v in vals}
                 if len(rs) == 1:
                     return rs.pop()
@@ -575,6 +581,15 @@ for _B in my_betas:
     det = ''
     for c in comps:
         b = {}
+        # rows of the whole table of draws labelled with the requested names in turn: no selection of the columns of those names
+        whole = None
+        for pat in ('[{_N: _V for _N, _V in zip(my_betas, _ROW)} for _ROW in __M]', '[dict(zip(my_betas, _ROW)) for _ROW in __M]'):
+            bw = {}
+            if m_node(_parse(pat)[0].value, c, bw) and not isinstance(bw['__M'][1], ast.Subscript):
+                whole = unparse(bw['__M'][1])
+        if whole is not None:
+            verdict, det = False, f'the rows of {whole} (all parameters, in the order of betaNames) are labelled with my_betas in turn, without selecting the columns of those names: the k-th requested name receives the draw of the k-th parameter'
+            break
         if zipped(c.elt):
             # the same table written dict(zip(<labels>, row)): column i of the selection gets the i-th label
             if not m_node(_parse('[dict(zip(__LABELS, _ROW)) for _ROW in __M[:, _IDX]]')[0].value, c, b):
